@@ -58,7 +58,22 @@ Chain2(s) ==
                          "2.0-r1", "2.1", "3.0", "3.0.1", "10.0", "10.1", "11.0">>
 \* chain positions (0-based) holding a pypi pre-/dev-release in the second family
 PypiPrePos2 == {2, 3, 4, 6, 7, 10}
-TheChain(s) == IF ChainNo = 1 THEN Chain(s) ELSE Chain2(s)
+\* third family: anchored at the zero version - its pre-release, zero itself, the first thing above it - then the same
+\* pattern around 0.1 and 1; pre-release words no keyword table knows (java, x86) where qualifiers are free-form.
+\* Nine members: bound positions up to K = 4.
+SemverChain3 == <<"0.0.0-java", "0.0.0", "0.0.1", "0.1.0-x86", "0.1.0", "0.1.1", "1.0.0-java", "1.0.0", "1.0.1">>
+Chain3(s) ==
+  CASE s \in {"cargo", "generic", "npm", "nuget"} -> SemverChain3
+    [] s = "golang" -> [i \in 1..9 |-> "v" \o SemverChain3[i]]
+    [] s = "pypi"   -> <<"0.dev1", "0", "0.post1", "0.1a1", "0.1", "0.1.post1", "1a1", "1", "1.post1">>
+    [] s = "deb"    -> <<"0~java", "0", "0-1", "0.1~x86", "0.1", "0.1-1", "1~java", "1", "1-1">>
+    [] s = "rpm"    -> <<"0~java", "0", "0-1", "0.1~x86", "0.1", "0.1-1", "1~java", "1", "1-1">>
+    [] s = "maven"  -> <<"0-alpha", "0", "0.0.1", "0.1-alpha", "0.1", "0.1.1", "1-alpha", "1", "1.0.1">>
+    [] s = "gem"    -> <<"0-java", "0", "0.0.1", "0.1-x86", "0.1", "0.1.1", "1-java", "1", "1.0.1">>
+    [] s = "alpine" -> <<"0_alpha1", "0", "0-r1", "0.1_rc1", "0.1", "0.1-r1", "1_alpha1", "1", "1-r1">>
+PypiPrePos3 == {0, 3, 6}
+TheChain(s) == IF ChainNo = 1 THEN Chain(s) ELSE IF ChainNo = 2 THEN Chain2(s) ELSE Chain3(s)
+ThePrePos == IF ChainNo = 3 THEN PypiPrePos3 ELSE PypiPrePos2
 AllSchemes == {"alpine", "cargo", "deb", "gem", "generic", "golang", "maven", "npm", "nuget", "pypi", "rpm"}
 
 VARIABLES ops,      \* the range: ops[j] is the comparator on bound j (position 2j-1), "" if the bound is unused
